@@ -22,6 +22,7 @@ for demo in $d/*_test.go.txt; do
   esac
   cp $demo $dir/zz_seeded_demo_test.go
   race=""; grep -q -- "-race" $d/MUTATION.md 2>/dev/null && race="-race"
+  head -3 $demo | grep -q "go:build verif" && race="-tags verif"
   with=$(go test $race -count=1 ./$dir 2>&1 | tail -1)
   git apply -R $d/patch.diff
   without=$(go test $race -count=1 ./$dir 2>&1 | tail -1)
